@@ -19,7 +19,7 @@ RULE = ("pipelines of 1..4 requests; one of them carries version x Connection va
 ASSUMPTIONS = ["FIN versus RST when unread input remains is kernel behaviour; a reset after the data counts as end-of-stream"]
 
 CONN = [None, "close", "Close", "keep-alive", "Keep-Alive", "upgrade", "x, close", "keep-alive, close", "x-closed", "foo",
-        "keep-alive;x", "UPGRADE", "", "close, keep-alive", "Keep-Alive, Upgrade"]
+        "keep-alive;x", "UPGRADE", "", "close, keep-alive", "Keep-Alive, Upgrade", "TE, Keep-Alive", "x,keep-alive", "x , close", "TE, upgrade"]
 
 
 def build(rng, n, k, ver, conn, eof, garbage, transport="u"):
@@ -92,6 +92,18 @@ def gen(tier, rng):
         ws.append(st)
         extra = "wu=%s ws=%s we=closed limit=3000" % (j(wu), j(ws))
         yield cv_line(pre + head + b"y" * sent, acts, eof=True, extra=extra), {"scenario": "half-close-inside-streamed-body"}
+    # a persistent connection stays usable behind a large request body that the application did not read (more than
+    # 64 KiB, chunked or with a length): the request behind it is served
+    for i in range(4 if tier == "quick" else 24):
+        size = rng.choice([70000, 140000, 200000])
+        fr = rng.choice(["chunked", "cl"])
+        r = AReq(method="POST", target="/ub%d" % i, version="1.1", headers=[("Host", "h")], framing=fr, body=body_bytes("ub%d" % i, size),
+                 chunks=[size // 2, size - size // 2] if fr == "chunked" else None)
+        f2 = AReq(method="GET", target="/ua%d" % i, version="1.1", headers=[("Host", "h")])
+        reads = rng.choice([[], [(10, 10)]])
+        extra = "wu=%s,%s ws=200,200 we=closed" % (hx(r.target), hx(f2.target))
+        yield (cv_line(r.render() + f2.render(), [action_str(reads, respond_str(200, b"ok", True)), action_str([], respond_str(200, b"ok", True))], extra=extra),
+               {"scenario": "unread-large-body-then-next"})
     # a connection-ending request answered with a body far larger than the socket buffers, read by a slow client: every
     # byte must arrive before the end of the stream (the writing side must keep blocking after the reading side is gone)
     for i, (ver, conn, tr) in enumerate([("1.1", "close", "u"), ("1.0", None, "u")] + ([("1.1", "Close", "t"), ("1.0", None, "u")] if tier != "quick" else [])):
